@@ -1,0 +1,59 @@
+//go:build verif
+
+package kcp
+
+import (
+	"sync/atomic"
+	"time"
+)
+
+// Verification call-outs, routed to hooks a verification harness installs.
+// A nil hook behaves exactly like the build without the 'verif' tag.
+
+var (
+	verifSchedPutHook      atomic.Pointer[func(ts *TimedSched, f *func(), deadline time.Time) bool]
+	verifPoolGetHook       atomic.Pointer[func(bp *bufferPool) []byte]
+	verifPoolPutHook       atomic.Pointer[func(bp *bufferPool, buf []byte) bool]
+	verifFlushAdmittedHook atomic.Pointer[func(kcp *KCP, newSegs int)]
+	verifYieldHook         atomic.Pointer[func(point int)]
+)
+
+// verifSchedPut is called first thing in TimedSched.Put. The hook may replace
+// *f (e.g. to count executions) and, by returning true, take over scheduling.
+func verifSchedPut(ts *TimedSched, f *func(), deadline time.Time) bool {
+	if h := verifSchedPutHook.Load(); h != nil {
+		return (*h)(ts, f, deadline)
+	}
+	return false
+}
+
+// verifPoolGet may serve a bufferPool.Get itself (non-nil result).
+func verifPoolGet(bp *bufferPool) []byte {
+	if h := verifPoolGetHook.Load(); h != nil {
+		return (*h)(bp)
+	}
+	return nil
+}
+
+// verifPoolPut may take ownership of a recycled buffer (true result).
+func verifPoolPut(bp *bufferPool, buf []byte) bool {
+	if h := verifPoolPutHook.Load(); h != nil {
+		return (*h)(bp, buf)
+	}
+	return false
+}
+
+// verifFlushAdmitted is called in KCP.flush right after new segments were
+// admitted to the send window, before the congestion state is rewritten.
+func verifFlushAdmitted(kcp *KCP, newSegs int) {
+	if h := verifFlushAdmittedHook.Load(); h != nil {
+		(*h)(kcp, newSegs)
+	}
+}
+
+// verifYield marks a point between two critical sections.
+func verifYield(point int) {
+	if h := verifYieldHook.Load(); h != nil {
+		(*h)(point)
+	}
+}
